@@ -337,6 +337,12 @@ func (b *bootstrapContext) DeleteConfig(ctx context.Context, bucketName, groupID
 		if err != nil {
 			return false, base.RedactErrorf("Error fetching registry to finalize delete of config group: %s, database: %s: %w", base.MD(groupID), base.MD(dbName), err), nil
 		}
+		// Only the entry marked deleted in step 2 is removed here - the database may have been created again by
+		// a concurrent writer once its config was deleted, and that entry must stay.
+		if registryDb, ok := registry.getRegistryDatabase(groupID, dbName); ok && !registryDb.IsDeleted() {
+			base.InfofCtx(ctx, base.KeyConfig, "Database was created again before finalization of delete, leaving registry entry")
+			return false, nil, nil
+		}
 		if !registry.removeDatabase(groupID, dbName) {
 			base.InfofCtx(ctx, base.KeyConfig, "Database not found in registry during finalization")
 			return false, nil, nil
